@@ -39,7 +39,8 @@ def _case(draw):
     kind = draw(st.sampled_from(["standard", "diagonal", "conditional", "conditional", "bernoulli", "bernoulli", "mademog", "mademog",
                                  "boxuniform", "mg1", "lotka", "kde"]))
     c = {"kind": kind, "seed": draw(st.integers(0, 10 ** 6)), "event": draw(st.sampled_from(EVENTS)),
-         "what": draw(st.sampled_from(["normalisation", "normalisation", "sampling", "mean"]))}
+         "what": draw(st.sampled_from(["normalisation", "normalisation", "sampling", "mean"])),
+         "bs": draw(st.sampled_from([None, None, 100, 999, 7000]))}
     if kind == "conditional":
         c["encoder"] = draw(st.sampled_from(["identity", "linear", "mlp"]))
         c["rows"] = draw(st.integers(1, 3))
@@ -188,7 +189,7 @@ def run_case(case):
                 return res
             n = 20000
             with torch.no_grad():
-                s = d.sample(n, ctx) if ctx is not None else d.sample(n)
+                s = d.sample(n, ctx, batch_size=case.get("bs")) if ctx is not None else d.sample(n, batch_size=case.get("bs"))
                 lp = d.log_prob(s.reshape([-1] + ev), ctx.repeat_interleave(n, 0) if ctx is not None else None)
             if not bool(torch.isfinite(lp).all()):
                 res.fail("sample_without_density", site, "a sample has non-finite log_prob")
@@ -248,7 +249,7 @@ def run_case(case):
                 return res
             n = 8000
             with torch.no_grad():
-                s = d.sample(n, ctx)
+                s = d.sample(n, ctx, batch_size=case.get("bs"))
             if list(s.shape) != [rows, n] + shape or not bool(((s == 0) | (s == 1)).all()):
                 res.fail("sample_shape", site, "sample shape %s / non-binary values" % list(s.shape))
                 return res
@@ -326,7 +327,7 @@ def run_case(case):
             # sampling: first coordinate marginal is the explicit mixture (mu, sd, w)
             n = 20000
             with torch.no_grad():
-                s = d.sample(n, ctx) if ctx is not None else d.sample(n)
+                s = d.sample(n, ctx, batch_size=case.get("bs")) if ctx is not None else d.sample(n, batch_size=case.get("bs"))
             want = [rows, n, F_] if ctx is not None else [n, F_]
             if list(s.shape) != want:
                 res.fail("sample_shape", site, "sample shape %s, want %s" % (list(s.shape), want))
